@@ -27,8 +27,12 @@ SphereViolS(P, c, r, sl) ==
     LET rr == D10(r) + sl
         lo == <<MinC(P, 1), MinC(P, 2), MinC(P, 3)>>
         hi == <<MaxC(P, 1), MaxC(P, 2), MaxC(P, 3)>>
-    IN  V(r >= 0 /\ \A k \in 1..Len(P) : Dist2(P[k], c) <= rr * rr, "ContainsEveryPoint")
-        \cup V(4 * (D10(r) - sl) * (D10(r) - sl) <= Dist2(lo, hi) \/ D10(r) <= sl, "NotLargerThanBoxDiagonal")
+        \* (coordinates of the checked sets are below 300 units = 30 000 here: anything beyond that is out of proportion and is
+        \* said so without squaring it - TLC integers are 32-bit)
+        huge == D10(r) > 20000 \/ \E i \in 1..3 : c[i] > 2000000 \/ c[i] < -2000000
+    IN  IF huge THEN {"NotLargerThanBoxDiagonal"}
+        ELSE V(r >= 0 /\ \A k \in 1..Len(P) : Dist2(P[k], c) <= rr * rr, "ContainsEveryPoint")
+             \cup V(4 * (D10(r) - sl) * (D10(r) - sl) <= Dist2(lo, hi) \/ D10(r) <= sl, "NotLargerThanBoxDiagonal")
 SphereViol(P, c, r) == SphereViolS(P, c, r, 3)
 ScaleP(P) == [k \in 1..Len(P) |-> <<P[k][1] * K, P[k][2] * K, P[k][3] * K>>]
 
